@@ -104,6 +104,9 @@ class SeqRef:
             return self.cond(c[1], T) and self.cond(c[2], T)
         if k == "or":
             return self.cond(c[1], T) or self.cond(c[2], T)
+        if k == "cmpsel":
+            x, y = self.ev(c[2], T), self.ev(c[3], T)
+            return x == y if self.cond(c[1], T) else x < y
         a, b = self.ev(c[1], T), self.ev(c[2], T)
         return {"eq": a == b, "ne": a != b, "lt": a < b, "ge": a >= b}[k]
 
